@@ -25,22 +25,26 @@ type Recip struct {
 }
 
 type Grease struct {
-	N    int `json:"n"`
-	Body int `json:"body"`
-	Tag  int `json:"tag"`
-	Arg  int `json:"arg,omitempty"` // length of an extra (long) argument on the stanza line
-	NArg int `json:"narg,omitempty"` // further short arguments on the stanza line (stanzas with 6..22 arguments)
-	App  int `json:"app,omitempty"` // the recipient appends this many bytes to the file-key slice it was handed (msg := append(fileKey, ctx...)): legal, and harmless while the slice has no spare capacity
+	N    int  `json:"n"`
+	Body int  `json:"body"`
+	Tag  int  `json:"tag"`
+	Arg  int  `json:"arg,omitempty"`  // length of an extra (long) argument on the stanza line
+	Bare bool `json:"bare,omitempty"` // the stanzas carry NO arguments at all (only a type)
+	NArg int  `json:"narg,omitempty"` // further short arguments on the stanza line (stanzas with 6..22 arguments)
+	App  int  `json:"app,omitempty"`  // the recipient appends this many bytes to the file-key slice it was handed (msg := append(fileKey, ctx...)): legal, and harmless while the slice has no spare capacity
 }
 
 // Recipient builds the sim-owned recipient the description stands for.
 func (g *Grease) Recipient() *world.GreaseRecipient {
-	return &world.GreaseRecipient{N: g.N, BodyLen: g.Body, Tag: g.Tag, ArgLen: g.Arg, Append: g.App, NArgs: g.NArg}
+	return &world.GreaseRecipient{N: g.N, BodyLen: g.Body, Tag: g.Tag, ArgLen: g.Arg, Append: g.App, NArgs: g.NArg, Bare: g.Bare}
 }
 
 func (r Recip) String() string {
 	if r.Key != nil {
 		return r.Key.String()
+	}
+	if r.Grease.Bare {
+		return fmt.Sprintf("g%dx%dbare", r.Grease.N, r.Grease.Body)
 	}
 	if r.Grease.Arg > 0 || r.Grease.NArg > 0 {
 		return fmt.Sprintf("g%dx%da%dn%d", r.Grease.N, r.Grease.Body, r.Grease.Arg, r.Grease.NArg)
@@ -125,6 +129,11 @@ func GenRecips(r *core.RNG, max int, allowRSA, allowScrypt bool) []Recip {
 				g.App = r.Pick(1, 8, 16, 17)
 			}
 			if r.Chance(1, 8) {
+				g.Bare = true
+				if g.N == 0 {
+					g.N = 1
+				}
+			} else if r.Chance(1, 8) {
 				g.NArg = r.Pick(3, 4, 5, 8, 20)
 				if g.N == 0 {
 					g.N = 1
